@@ -354,6 +354,66 @@ def run_filter(ctx):
         ctx.violation("C16:keyset:private-export-of-public-ok", "private export of a set with a public-only key did not fail", {})
 
 
+def run_key_histories(ctx):
+    """One key OBJECT through a history of exports, in every order: each export equals the one a fresh object gives (an export
+    is a function of the key, not of what was asked of the object before)."""
+    import itertools
+    rng = ctx.rng
+    ops = {
+        "dict-private": lambda k: json.dumps(k.as_dict(is_private=True), sort_keys=True),
+        "dict-public": lambda k: json.dumps(k.as_dict(is_private=False), sort_keys=True),
+        "json-private": lambda k: json.dumps(json.loads(k.as_json(is_private=True)), sort_keys=True),
+        "pem-private": lambda k: k.as_pem(is_private=True),
+        "pem-public": lambda k: k.as_pem(is_private=False),
+        "der-public": lambda k: k.as_der(is_private=False),
+        "public-key": lambda k: k.get_public_key().public_bytes(ser.Encoding.DER, ser.PublicFormat.SubjectPublicKeyInfo),
+        "private-key": lambda k: k.get_private_key().private_bytes(ser.Encoding.DER, ser.PrivateFormat.PKCS8, ser.NoEncryption()),
+        "as-key-public": lambda k: k.as_key(is_private=False).public_bytes(ser.Encoding.DER, ser.PublicFormat.SubjectPublicKeyInfo),
+        "thumbprint": lambda k: k.thumbprint(),
+        "kid": lambda k: k.kid,
+        "op-verify": lambda k: k.get_op_key("verify").public_bytes(ser.Encoding.DER, ser.PublicFormat.SubjectPublicKeyInfo),
+        "op-sign": lambda k: k.get_op_key("sign").private_bytes(ser.Encoding.DER, ser.PrivateFormat.PKCS8, ser.NoEncryption()),
+        "keyset-private": lambda k: json.dumps(KeySet([k]).as_dict(is_private=True), sort_keys=True),
+    }
+    ec_k = ec.generate_private_key(ec.SECP256R1())
+    ed_k = ed25519.Ed25519PrivateKey.generate()
+    rsa_k = rsa_pool_cached(ctx)[0]
+    pem = lambda k: k.private_bytes(ser.Encoding.PEM, ser.PrivateFormat.PKCS8, ser.NoEncryption())   # noqa: E731
+    makers = [("EC:object", lambda: ECKey.import_key(ec_k)), ("EC:pem", lambda: ECKey.import_key(pem(ec_k))), ("EC:jwk", lambda: ECKey.import_key(ECKey.import_key(ec_k).as_dict(True))),
+              ("OKP:object", lambda: OKPKey.import_key(ed_k)), ("OKP:pem", lambda: OKPKey.import_key(pem(ed_k))),
+              ("RSA:object", lambda: RSAKey.import_key(rsa_k)), ("RSA:pem", lambda: RSAKey.import_key(pem(rsa_k))), ("RSA:jwk", lambda: RSAKey.import_key(RSAKey.import_key(rsa_k).as_dict(True))),
+              ("EC:generated", None)]
+    names = sorted(ops)
+    for label, make in makers:
+        if make is None:
+            g = ECKey.generate_key("P-256", is_private=True)
+            gd = g.as_dict(True)
+            make = lambda gd=gd: ECKey.import_key(ECKey.import_key(dict(gd)).get_private_key())   # noqa: E731
+        ref = {}
+        for n in names:
+            try:
+                ref[n] = ("ok", ops[n](make()))
+            except Exception as e:  # noqa: BLE001
+                ref[n] = ("err", type(e).__name__)
+        # every ordered pair of operations, then some longer random orders
+        orders = list(itertools.permutations(names, 2)) if ctx.tier != "quick" else [tuple(rng.sample(names, 2)) for _ in range(40)] + [(a, "dict-private") for a in names] + [(a, "keyset-private") for a in names]
+        orders += [tuple(rng.sample(names, rng.randint(3, 6))) for _ in range(10 if ctx.tier == "quick" else 100)]
+        for order in orders:
+            k = make()
+            case = {"key": label, "operations": list(order)}
+            ctx.case(case, ("key-history", label, order), "key-history:%s" % label.split(":")[0])
+            for i, n in enumerate(order):
+                try:
+                    got = ("ok", ops[n](k))
+                except Exception as e:  # noqa: BLE001
+                    got = ("err", type(e).__name__)
+                if got != ref[n]:
+                    ctx.violation("C16:key-history:%s:%s" % (label.split(":")[0], n), "an export of a key object depends on what was asked of the object before "
+                                  "(after %s, %s gives %s instead of %s)" % (list(order[:i]), n, got[0] if got[0] == "ok" else got, ref[n][0] if ref[n][0] == "ok" else ref[n]),
+                                  case)
+                    break
+
+
 def run_key_sets(ctx):
     """A key set is a LIST: export and re-import keep every key, in order, whatever the kids are -- equal kids (RFC 7517 section 4.5
     allows them for keys of different types or generations), absent kids, a kid that equals a sibling's thumbprint."""
@@ -420,6 +480,7 @@ def run(ctx):
     run_keys(ctx)
     run_filter(ctx)
     run_key_sets(ctx)
+    run_key_histories(ctx)
 
 
 def run_case(ctx, case):
